@@ -46,8 +46,9 @@ SEMANTICS: List[str] = [
     'AFTER INSERT trigger; duplicate PRIMARY/UNIQUE key on plain INSERT raises 1062 (IntegrityError), INSERT IGNORE skips the row',
     'INSERT ... ON DUPLICATE KEY UPDATE: assignments evaluated left to right against the existing row (later assignments see earlier '
     'ones), VALUES(col) is the value proposed for insertion; BEFORE UPDATE trigger always fires, the AFTER UPDATE trigger only when '
-    'the row actually changed; ROW_COUNT()/rowcount adds 1 per inserted row, 2 per changed row, 0 per unchanged row; unqualified '
-    'names resolve to the target table first, then to the tables of the feeding SELECT (ambiguous -> 1052)',
+    'the row actually changed; ROW_COUNT()/rowcount adds 1 per inserted row, 2 per changed row, 0 per unchanged row; in the ODKU '
+    'clause of INSERT ... SELECT the columns of the SELECT\'s tables are visible only when the SELECT is plain (no GROUP BY / aggregate / '
+    'DISTINCT / UNION), and then a name found both in the target table and in the SELECT\'s tables is ambiguous (1052)',
     'INSERT ... SELECT streams: each selected row is evaluated (including `@x := expr` user-variable assignments) and then '
     'inserted / ODKU-updated before the next row is produced; joins are depth-first nested loops in FROM order; a LATERAL derived '
     'table is re-materialised for every left row and sees rows already written by the same statement; if the target table is read '
@@ -76,7 +77,10 @@ SEMANTICS: List[str] = [
     'table scans and index lookups return rows in PRIMARY KEY order (InnoDB clustered-index order); tables without a primary key in '
     'insertion order; GROUP BY yields groups in order of first appearance; a non-aggregated select item of a grouped query takes '
     'its value from the first row of the group; HAVING / ORDER BY resolve select aliases before columns (except GROUP BY columns), '
-    'GROUP BY resolves columns before aliases',
+    'GROUP BY resolves columns before aliases; in GROUP BY / HAVING / ORDER BY a name that is ambiguous among the FROM tables resolves '
+    'to the select-list item of that name (MySQL find_order_in_list); every column reference of a statement is resolved before '
+    'execution, so an unknown column is reported even when no row is evaluated (SchemaError)',
+    'a scalar subquery (also `RETURN (SELECT ...)` of a stored function) returning more than one row raises 1242',
     'RAND() draws from the injected random.Random; UNIX_TIMESTAMP()/NOW()/UTC_DATE()/CURRENT_DATE read the injected clock (UTC)',
     'JSON_OBJECTAGG / JSON_ARRAYAGG / JSON_OBJECT return JSON text formatted as MySQL prints it (keys ordered by length then bytes, '
     '", " and ": " separators); JSON_OBJECTAGG over zero rows is NULL; NULL key -> 3158',
